@@ -340,6 +340,11 @@ def gen_event(rng: random.Random, tb: dict, cfg: dict, T: int, etype=None, capit
         hh = rng.sample([(r, c) for r in regs for c in cats], rng.randint(1, min(2, len(regs) * len(cats))))
         tot = sum(imp.values())
         ev["house"] = {_key(r, c): tot * rng.choice([0.1, 0.5, 1.0]) for r, c in hh}
+        r2 = random.Random(repr(sorted(imp.items())))
+        rest = [(r, c) for r in regs for c in cats if (r, c) not in hh]
+        if rest and r2.random() < 0.3:
+            # a household vector that lists a column with no damage (an explicit 0, as in a table of damages by region)
+            ev["house"][_key(*r2.choice(rest))] = 0.0
     else:
         ev["house"] = None
     # which public constructor builds it (the scalar one is given weights proportional to the impacts)
